@@ -506,11 +506,11 @@ loop:
 			continue
 		}
 		body := t.s[1:]
-		if !utf8.ValidString(body) {
+		first, n := utf8.DecodeRuneInString(body)
+		if first == utf8.RuneError && n <= 1 {
 			res.Undetermined = "short token with invalid UTF-8"
 			break
 		}
-		first, n := utf8.DecodeRuneInString(body)
 		if len(body) > n && body[n] == '=' {
 			name := string(first)
 			v := body[n+1:]
@@ -532,6 +532,11 @@ loop:
 				return fail(e)
 			}
 			continue
+		}
+		// (an attached value is taken byte for byte; a cluster is read rune by rune)
+		if !utf8.ValidString(body) {
+			res.Undetermined = "short token with invalid UTF-8"
+			break
 		}
 		runes := []rune(body)
 		for i, c := range runes {
